@@ -102,6 +102,96 @@ def check_collection(ctx, idx):
                          key="c12:cross-talk")
 
 
+class _TapState(eqx.Module):
+    adv: jax.Array
+    ret: jax.Array
+
+
+def _make_tap(E, T):
+    from lerax.callback import AbstractIterationCallback
+
+    class BufferTap(AbstractIterationCallback):
+        """records the advantages / returns of the rollout that iteration() trains on (read from the
+        iteration's locals; absent local => zeros and the clause is skipped)"""
+
+        def reset(self, ctx, *, key):
+            return _TapState(jnp.full((E, T), jnp.nan), jnp.full((E, T), jnp.nan))
+
+        def on_iteration(self, ctx, *, key):
+            buf = ctx.locals.get("rollout_buffer")
+            if buf is None:
+                return ctx.state
+            return _TapState(jnp.asarray(buf.advantages, dtype=float).reshape(E, T),
+                             jnp.asarray(buf.returns, dtype=float).reshape(E, T))
+
+    return BufferTap()
+
+
+def check_iteration_streams(ctx, idx):
+    """Through the real iteration(): perturbing one environment's start state must leave the
+    advantages / returns the learner trains on for every other environment bit-identical."""
+    rng = ctx.rng
+    which = ["PPO", "A2C"][idx % 2]
+    env0 = random_tabular(rng, p_term=0.05, p_trunc=0.0)
+    env = TimeLimit(env0, int(rng.integers(6, 12)))
+    N, T = int(rng.integers(2, 5)), int(rng.integers(4, 9))
+    policy = random_ac_policy(rng, env0)
+    algo = (PPO(num_envs=N, num_steps=T, num_epochs=1, num_batches=1, gae_lambda=0.9, gamma=0.95)
+            if which == "PPO" else A2C(num_envs=N, num_steps=T, gae_lambda=0.9, gamma=0.95))
+    cb = _make_tap(N, T)
+    k0, k1 = jr.split(jr.key(int(rng.integers(0, 2**31))))
+    state = algo.reset(env, policy, key=k0, callback=cb)
+    it = eqx.filter_jit(lambda s, k: algo.iteration(s, key=k, callback=cb))
+    base = it(state, k1).callback_state
+    if bool(jnp.isnan(base.adv).all()):
+        ctx.note("iteration(): rollout buffer not visible to callbacks; stream-independence through iteration() skipped")
+        return
+    j = int(rng.integers(0, N))
+    src = (j + 1) % N
+    pert_step = jax.tree.map(lambda x: x.at[j].set(x[src]) if (hasattr(x, "at") and x.ndim >= 1 and x.shape[0] == N) else x,
+                             state.step_state.env_state)
+    if _bit_equal(pert_step, state.step_state.env_state):
+        # identical start states: push the perturbed environment one step ahead instead
+        one = jax.tree.map(lambda x: x[j], state.step_state.env_state)
+        moved = env.transition(one, sample_action(rng, env, k0), key=k0)
+        pert_step = jax.tree.map(lambda x, m: x.at[j].set(m), state.step_state.env_state, moved)
+    pert = eqx.tree_at(lambda s: s.step_state.env_state, state, pert_step)
+    out = it(pert, k1).callback_state
+    case = {"kind": "iteration-streams", "algo": which, "N": N, "T": T, "perturbed": j}
+    for i in range(N):
+        if i == j:
+            continue
+        ctx.case({**case, "idx": idx, "stream": i}, True, sample={**case, "stream": i} if idx == 0 else None)
+        ctx.count("iteration:perturbation")
+        same = (np.array_equal(np.asarray(base.adv[i]), np.asarray(out.adv[i]), equal_nan=True)
+                and np.array_equal(np.asarray(base.ret[i]), np.asarray(out.ret[i]), equal_nan=True))
+        if not same:
+            ctx.phi_fail("advantages_of_other_environments_unaffected_through_iteration",
+                         {**case, "stream": i, "base_adv": np.asarray(base.adv[i]), "perturbed_adv": np.asarray(out.adv[i])},
+                         key="c12:iteration-cross-talk")
+
+
+def check_step_purity(ctx, env, name, idx):
+    """env.step depends only on its explicit arguments and leaves them intact: stepping twice from
+    the same state gives the same result and the state passed in is still usable afterwards."""
+    rng = ctx.rng
+    key = jr.key(int(rng.integers(0, 2**31)))
+    state, _, _ = env.reset(key=key)
+    action = sample_action(rng, env, key)
+    case = {"kind": "step-purity", "env": name}
+    ctx.case({**case, "idx": idx}, True)
+    ctx.count("step-purity")
+    try:
+        out1 = env.step(state, action, key=key)
+        out2 = env.step(state, action, key=key)
+        nxt = env.transition(state, action, key=key)        # the input state must still be alive
+        jax.block_until_ready(jax.tree.leaves((out1, out2, nxt)))
+        if not _bit_equal(out1, out2):
+            ctx.phi_fail("step_repeatable_from_same_arguments", case, key=f"c12:step-impure:{name}")
+    except RuntimeError as e:
+        ctx.phi_fail("step_leaves_its_arguments_intact", {**case, "error": str(e)[:200]}, key=f"c12:step-destroys-input:{name}")
+
+
 def check_env_modes(ctx, env, name, idx):
     rng = ctx.rng
     fns = {
@@ -163,7 +253,11 @@ def run(ctx):
             ("Tabular", random_tabular(ctx.rng)), ("TabularBox", random_tabular(ctx.rng, box=True))]
     if ctx.quick:
         envs = [envs[i] for i in (0, 2, 5, 6, 8)]
+    for i in range(ctx.budget(2, 8)):
+        check_iteration_streams(ctx, i)
+        ctx.gc(2)
     for i, (name, env) in enumerate(envs):
+        check_step_purity(ctx, env, name, i)
         check_env_modes(ctx, env, name, i)
         ctx.gc(2)
     if not ctx.quick:
